@@ -33,7 +33,7 @@ def shapes():
                     atoms.append(("d", "i"))
                     digits = ["i"]
                 else:
-                    atoms.append(("d", "m", ("lit", 1)))
+                    atoms.append(("d", "m", ("lit", 1), "nz"))      # one digit, not zero (a zero coefficient is a shape of its own)
                     digits = ["m"]
                 if frac:
                     atoms += [("c", "."), ("d", "f")]
@@ -42,6 +42,10 @@ def shapes():
                     atoms += [("c", "E" + ex), ("d", "n")]
                 key = "%s%s%s%s" % ("-" if sg else "", "d" if ex else "ddd", ".fff" if frac else "", "E%sn" % ex if ex else "")
                 out.append((key, strfold.mk(atoms), digits, ex, frac, sg))
+        # a zero coefficient keeps its exponent in to-scientific-string (0E+3 is the result of rescaling zero): the coefficient is the literal digit 0
+        for ex in ("+", "-"):
+            atoms = ([("sgn",)] if sg else []) + [("c", "0E" + ex), ("d", "n")]
+            out.append(("%s0E%sn" % ("-" if sg else "", ex), strfold.mk(atoms), ["0"], ex, False, sg))
     return out
 
 
@@ -139,7 +143,8 @@ def plain_text_rule(F, rep):
                 rep.undecided(r1, ikey, "the text produced for the library text %s does not fold to pieces of that text (%s)" % (strfold.render(text), "; ".join(sorted(set(sf.unknown))[:3]) or "opaque result"))
                 continue
             probs, sign, seq, exp = strfold.numeric_value(ev, val)
-            want_seq = [("D", d) for d in digits]
+            want_seq = [("D", d) for d in digits] if digits != ["0"] else [("0", ("lit", 1))]
+            zero = digits == ["0"]
             want_exp = input_exponent(ev, ex, frac)
             if any(strfold.text_of(a) is not None and "E" in strfold.text_of(a) for a in val[1]):
                 probs.append("an exponent marker is left in the text")
@@ -147,6 +152,13 @@ def plain_text_rule(F, rep):
                 probs.append("the minus sign is lost")
             if not sg and sign:
                 probs.append("a minus sign appears")
+            lz = json_leading_zero(val)
+            if lz:
+                probs.append(lz)
+            if zero and not probs:
+                # the value is zero whatever the exponent: only the form is judged
+                rep.ok(r1, ikey, "%s -> %s" % (strfold.render(text), strfold.render(val)))
+                continue
             if not probs and not (lin_known(exp) and all(x[0] != "0" or lin_known(x[1]) for x in seq)):
                 rep.undecided(r1, ikey, "%s -> %s: a zero count or the position of the decimal point is not a linear form of the exponent and the lengths" % (strfold.render(text), strfold.render(val)))
                 continue
@@ -200,6 +212,19 @@ def plain_text_rule(F, rep):
                 rep.violation(r2, key, "%s renders Value::Number through %s instead of the number's Display / Jsonify" % (cands[0], (dbg + other)[0]), "%s:%s" % (h["file"], arm["b"].get("l", h["line"])))
             else:
                 rep.ok(r2, key, "through %s" % sorted({c.split("::")[-1] for c in calls if c})[:4])
+
+
+def json_leading_zero(val):
+    """a JSON number's integer part is `0` or starts with a non-zero digit: a literal 0 followed by further integer digits is not a JSON number (and not canonical plain text)"""
+    items = [x for x in strfold.flat(val[1]) if not (x[0] == "ch" and x[1] == "-")]
+    intpart = []
+    for x in items:
+        if x[0] == "ch" and x[1] == ".":
+            break
+        intpart.append(x)
+    if len(intpart) > 1 and intpart[0][0] == "ch" and intpart[0][1] == "0":
+        return "the integer part starts with the digit 0 followed by %s: `%s` is not a valid JSON number" % ("more digits", strfold.render(val))
+    return None
 
 
 def lin_known(v):
